@@ -310,15 +310,12 @@ Inv_Inj ==
 
 -----------------------------------------------------------------------------
 (* emission *)
-RECURSIVE JoinStr(_, _, _)
-JoinStr(s, i, acc) == IF i > Len(s) THEN acc ELSE JoinStr(s, i + 1, acc \o s[i])
-
 \* cases that share the decoration of their base refer to the AST of the base case (astof)
 Vector(d) ==
   LET base == Bases[d.b]
       toks == ToksOf(d)
       id == base.B.name \o "/" \o d.kind \o "/" \o ToString(d.i) \o "/" \o ToString(d.j)
-      text == JoinStr(Render(toks, LayoutOf(d, toks)), 1, "") IN
+      text == Render(toks, LayoutOf(d, toks)) IN   \* the text is the concatenation (done by the driver)
   IF OwnDeco(d) \/ (d.kind = "base" /\ d.i = 1)
   THEN [id |-> id, name |-> base.B.name, kind |-> d.kind, text |-> text, ntok |-> Len(toks), ast |-> AstOf(d), deps |-> base.deps]
   ELSE [id |-> id, name |-> base.B.name, kind |-> d.kind, text |-> text, ntok |-> Len(toks),
